@@ -8,6 +8,7 @@ import (
 	"fmt"
 	"reflect"
 	"strings"
+	"sync/atomic"
 	"time"
 
 	jschema "github.com/jsightapi/jsight-schema-go-library"
@@ -25,7 +26,7 @@ func init() {
 		ExtraID:     "C19c",
 		Run:         run,
 		Replay:      replay,
-		QuickBudget: 60 * time.Second,
+		QuickBudget: 150 * time.Second,
 		Assumptions: []string{
 			"the canonical state key (order backing array, len, Get of every alphabet key) determines all futures; merges are validated by recomputing successors of merged histories",
 			"callback-visible behaviour of Map on callback error: entries before the failing one are updated, iteration stops, the value returned together with the error is not stored",
@@ -537,14 +538,45 @@ func opsString(ops []Op) string {
 	return strings.Join(s, ";")
 }
 
-// runHistory replays a history on a fresh object; returns the first diff.
+// blockedAfter: an operation of a sequential history that has not returned after this long never will (the
+// histories take microseconds; the only way to wait is a lock that was not released). Generous on purpose.
+const blockedAfter = 30 * time.Second
+
+// runHistory replays a history on a fresh object; returns the first diff. The replay runs in a goroutine of
+// its own: a call that blocks forever (a lock leaked by an earlier call) is a violation, not a hang of the check.
 func runHistory(f factory, ops []Op) (imap, *orderedmap.Map, string) {
+	type out struct {
+		m imap
+		r *orderedmap.Map
+		d string
+	}
+	ch := make(chan out, 1)
+	var progress atomic.Int64
+	go func() {
+		m, r, d := runHistoryOn(f, ops, &progress)
+		ch <- out{m, r, d}
+	}()
+	select {
+	case o := <-ch:
+		return o.m, o.r, o.d
+	case <-time.After(blockedAfter):
+		n := int(progress.Load())
+		at := "the observers on the fresh object"
+		if n > 0 && n <= len(ops) {
+			at = fmt.Sprintf("operation %d (%s) or the observers behind it", n, ops[n-1])
+		}
+		return f.mk(), orderedmap.New(), fmt.Sprintf("a call never returns: %s blocked for %s (a lock taken by an earlier call was not released)", at, blockedAfter)
+	}
+}
+
+func runHistoryOn(f factory, ops []Op, progress *atomic.Int64) (imap, *orderedmap.Map, string) {
 	m := f.mk()
 	r := orderedmap.New()
 	if d := observe(m, r); d != "" {
 		return m, r, "fresh object: " + d
 	}
-	for _, op := range ops {
+	for i, op := range ops {
+		progress.Store(int64(i + 1))
 		if d := apply(m, r, op); d != "" {
 			return m, r, d
 		}
@@ -620,6 +652,13 @@ func run(c *ev.Ctx) {
 				if d != "" {
 					s.succ = append(s.succ, "VIOLATION")
 					c.Violate(f.name+";"+opsString(h), fmt.Sprintf("%s after %s: %s", f.name, opsString(h), d), caseT{f.name, h})
+					if strings.Contains(d, "a call never returns") {
+						// every further history would block as well (one minute each): the search of this
+						// map type ends here, incomplete
+						c.Cap("search of " + f.name + " abandoned after a blocked call")
+						queue = nil
+						break
+					}
 					continue
 				}
 				k := internalKey(m)
